@@ -384,9 +384,10 @@ func runC13(c *eng.Ctx) {
 				}
 				storesConverted := func(n *eng.GNode) bool {
 					as, ok := n.Node.(*ast.AssignStmt)
-					if !ok || len(as.Lhs) != 1 || len(as.Rhs) != 1 || !deref(as.Lhs[0]) {
+					if !ok || len(as.Lhs) < 1 || len(as.Rhs) != 1 || !deref(as.Lhs[0]) {
 						return false
 					}
+					// `*pf = v` with v from the converter, or `*pf, err = conv(*pf)`
 					cl, isC := ast.Unparen(resolveLocal(info, el.Body, as.Rhs[0])).(*ast.CallExpr)
 					if !isC || len(cl.Args) < 1 || !deref(cl.Args[0]) {
 						return false
@@ -833,20 +834,37 @@ func runC13R5(c *eng.Ctx, r *eng.RuleCtx) {
 			fld := p.Field(pkgPatch, "createOperation", fl)
 			ok := false
 			n := 0
-			for _, gn := range g.Nodes {
-				as, isA := gn.Node.(*ast.AssignStmt)
-				if !isA || len(as.Lhs) != 1 || !eng.IsField(info, as.Lhs[0], fld) {
-					continue
+			for _, st := range storesOfField(info, f.Decl.Body, fld) {
+				if b, isC := constBool(info, st.Val); isC && !b {
+					continue // an explicit false
 				}
 				n++
-				if b, isC := constBool(info, as.Rhs[0]); isC && b {
-					ok = g.OnlyVia(gn, nil, g.FactEdge(func(fc eng.Fact) bool {
-						if fc.Y == nil || !fc.Pos {
-							return false
-						}
-						s, isS := eng.ConstStr(info, fc.Y)
-						return isS && s == want
-					}))
+				if b, isC := constBool(info, st.Val); isC && b {
+					// `flag = true` under the case of the wanted operation
+					if gn := g.NodeOf(st.Stmt); gn != nil {
+						ok = g.OnlyVia(gn, nil, g.FactEdge(func(fc eng.Fact) bool {
+							x, y, eq, isEq := eng.EqAtom(fc)
+							if !isEq || !eq {
+								return false
+							}
+							sx, isX := eng.ConstStr(info, x)
+							sy, isY := eng.ConstStr(info, y)
+							return (isX && sx == want) || (isY && sy == want)
+						}))
+					}
+					continue
+				}
+				// `flag: operation == Wanted`
+				if be, isB := ast.Unparen(st.Val).(*ast.BinaryExpr); isB && be.Op == token.EQL {
+					sx, isX := eng.ConstStr(info, be.X)
+					sy, isY := eng.ConstStr(info, be.Y)
+					other := be.X
+					if isX {
+						other = be.Y
+					}
+					if ((isX && sx == want) || (isY && sy == want)) && isParamOfFunc(f, eng.SelObj(info, other)) {
+						ok = true
+					}
 				}
 			}
 			r.Check(ok && n == 1, "newCreateOperation "+fl, f.Decl.Pos(), "set only for "+want, fl+" is not set exactly for "+want)
